@@ -380,10 +380,14 @@ class Check:
             if reproduced:
                 self._violation(ob, info, replay_info=info, reproduced=True)
             else:
-                ob.status = "sat-unreproduced"
+                via_abs = "linear-abstraction" in (res.solver or "")
+                ob.status = "unknown" if via_abs else "sat-unreproduced"
                 ob.detail = json.dumps(info, default=str)[:2000]
                 self.inconclusive.append(ob)
-                self.log(f"INCONCLUSIVE {oid}: solver found a model but the replay on the real code did not reproduce it: {ob.detail[:500]}")
+                if via_abs:
+                    self.log(f"INCONCLUSIVE {oid}: the nonlinear query was not decided within its budget and the candidate found on its linear over-approximation does not reproduce on the real code")
+                else:
+                    self.log(f"INCONCLUSIVE {oid}: solver found a model but the replay on the real code did not reproduce it: {ob.detail[:500]}")
             return False
         ob.detail = res.reason
         self.inconclusive.append(ob)
